@@ -76,7 +76,7 @@ class RebuildProp(Prop):
 
 class C13(RebuildProp):
     pid = "C13"
-    clauses = ["C13.complete", "C13.count"]
+    clauses = ["C13.complete", "C13.count", "M13.impl"]
     design_ref = "DESIGN.md section 6 C13/C14/C19"
     level_text = ("TLC checks MapPieces.tla (the piece -> file-range map of _map_pieces equals the stream slices for all "
                   "size vectors incl. files ending exactly on a boundary and empty files; the pinned commit's map is a "
